@@ -121,6 +121,9 @@ class Monitors:
             return res
 
         wrapper.__vf_original__ = fn
+        for attr in ("cache_clear", "cache_info"):  # memoised functions keep their cache controls
+            if hasattr(fn, attr):
+                setattr(wrapper, attr, getattr(fn, attr))
         self._set(owner, name, raw, kind, wrapper)
         for al in aliases:
             araw = owner.__dict__[al]
